@@ -279,6 +279,8 @@ fn layout_ok(size: usize, align: usize) -> bool {
 
 unsafe impl Allocator for CkAlloc {
     fn allocate(&self, layout: Layout) -> Result<NonNull<[u8]>, AllocError> {
+        // a custom allocator is user code as well: it may panic (fault enumeration, class `alloc`); never under the ledger lock
+        crate::fuse::tick(crate::fuse::Class::Alloc);
         let (size, align) = (layout.size(), layout.align());
         let (guarded, refuse) = with(|l| {
             l.max_request = l.max_request.max(size);
